@@ -244,6 +244,7 @@ func runC18(c *Ctx) {
 	c.rule("published-default", "a package-level object stored into the value a constructor returns must be of a type no module function mutates")
 	c.rule("option-writes-instance-only", "functions returning ReaderOption/WriterOption closures write no package-level variable")
 	c.rule("per-call-no-receiver-write", "the *WithOptions methods do not write memory reachable from their receiver and do not store the per-call options into it")
+	c.rule("per-call-no-argument-write", "the *WithOptions methods (and what they call) do not write memory reachable from the per-call options argument: the value is the caller's and may be reused for another call or instance")
 	c.rule("per-call-reads-argument", "inside a *WithOptions method a read of the receiver's Options is the fallback branch of an emptiness test of the same field of the per-call argument; convenience methods pass the receiver's options to their *WithOptions sibling")
 	c.notDecided("that the defaults equal the documented values")
 	o := newOrigins(c.P)
@@ -303,6 +304,20 @@ func runC18(c *Ctx) {
 			c.bad("per-call-no-receiver-write", name, c.P.Pos(fn.Pos()), "the per-call options (or another argument) are stored into the receiver: they outlive the call")
 		default:
 			c.ok("per-call-no-receiver-write", name, c.P.Pos(fn.Pos()), "receiver untouched")
+		}
+		// the per-call options value belongs to the caller: writing into it carries one call's
+		// (or one instance's) settings into the next call that reuses the value
+		last := len(fn.Params) - 1
+		var aw []mutation
+		for _, m := range s.muts {
+			if m.param == last && last > 0 {
+				aw = append(aw, m)
+			}
+		}
+		if len(aw) > 0 {
+			c.bad("per-call-no-argument-write", name, c.P.Pos(aw[0].pos), describeMuts(c, name, "per-call options argument", aw))
+		} else {
+			c.ok("per-call-no-argument-write", name, c.P.Pos(fn.Pos()), "the per-call options argument is only read")
 		}
 	}
 	// D4
